@@ -437,7 +437,7 @@ def search_mutated(ctx: Ctx) -> SearchResult:
 	res = SearchResult('mutated sentences: accepted with the tree CPython builds, or Errors.Syntax whose summary names an input token and an existing line')
 	hist: Counter[str] = Counter()
 	seen: set[str] = set()
-	texts: list[tuple[str, str]] = [('edge', t) for t in ['', '\n', '#c', ' ', 'a +', '(', 'x = [1, 2', 'if a:\n\tb\n\t\tc', '\tx', 'a ?', 'a b', 'def f() -> None:\n\treturn 1 +']]
+	texts: list[tuple[str, str]] = [('edge', t) for t in ['', '\n', '#c', ' ', 'a -', 'a +', '(', 'x = [1, 2', 'if a:\n\tb\n\t\tc', '\tx', 'a ?', 'a b', 'def f() -> None:\n\treturn 1 +']]
 	d = os.path.join(common.CORPUS_DIR, PROP)
 	if os.path.isdir(d):
 		for fn in sorted(os.listdir(d)):
@@ -450,13 +450,16 @@ def search_mutated(ctx: Ctx) -> SearchResult:
 			if paren_depth(mtoks) <= 4:
 				texts.append((mk, gramlib.render_tokens(mtoks, rng, rng.choice([0.0, 0.5]))))
 	for mk, text in texts:
-		try:
-			tokens = world.tokenizer.parse(text)
-		except Exception:  # noqa: BLE001 - tokenizer failures are C13's subject
-			hist['tokenizer-error'] += 1
-			continue
 		res.cases += 1
 		seen.add(text)
+		try:
+			tokens = world.tokenizer.parse(text)
+		except Exception as e:  # noqa: BLE001 - SyntaxParser.parse runs the tokenizer: its exception escapes the parse call
+			kind = exc_enum(e)
+			key = f'escaped:tokenizer-{kind}' + (':trailing-minus' if text.rstrip(' \t').endswith('-') else '')
+			hist[key] += 1
+			res.findings.append(Finding(key=key, what=f'{kind} raised by the tokenizer instead of Errors.Syntax for {text!r}', replay={'text': text, 'mutation': mk}))
+			continue
 		kind, payload = gramlib.real_parse(world.rules, gramlib.FixedTokenizer(tokens), text)
 		if kind == 'ok':
 			try:
